@@ -14,7 +14,7 @@ class TransformWrapperBase(KDWrapper):
     def _getitem(self, item, idx, ctx=None):
         if self.seed is not None:
             rng = np.random.default_rng(seed=self.seed + idx)
-            if isinstance(self.transform, (KDComposeTransform, KDStochasticTransform)):
+            if isinstance(self.transform, KDTransform):
                 self.transform.set_rng(rng)
         if isinstance(self.transform, KDTransform):
             return self.transform(item, ctx=ctx)
